@@ -33,10 +33,10 @@ ASSUMPTIONS = [
     'numpy.savetxt / Python "%.18e" print correctly rounded and numpy.loadtxt (strtod) parses correctly rounded: this is what '
     'the character-level and bit-level comparison with the exact Lean printer / parser checks on every sample',
     'standard model of floating-point arithmetic for sqrt and multiplication (variance_few_ulp), no overflow / underflow',
-    'ParserNearest (explicit hypothesis of numbers_back_partial / coord_value_bit_exact_partial): the rounding core of the '
-    "model's parser (litBits / nearestBits) maps a decimal within 1/2*10^-18 relative of a finite binary64 back to its bit "
-    'pattern; everything else of parseDecimal(formatE18 b) = b is proved (binary64 gap, printer error, text generation and '
-    'tokenizing, zeros). Validated on every sample by the correspondence run (bitwise comparison with strtod)',
+    'no hypothesis is left at the number level: parseDecimal(formatE18 b) = b for every finite bit pattern is a theorem about '
+    'the model (numbers_back: binary64 gap, printer error, text generation and tokenizing, zeros, and the rounding core of '
+    'the parser, parser_nearest); that numpy / glibc print and parse like the model is what the text and bit comparison of '
+    'the correspondence run checks on every sample',
 ]
 TRUSTED = [
     'modelled, not verified: scippneutron.io.xye.save_xye/load_xye/_deduce_coord/_generate_xye_header and the parts of '
